@@ -139,6 +139,10 @@ CORPUS = [
      '--excitation-voltage=2j', '--theta=0,10,2', '--phi=0,90,1'],
     ['-w', '10,0,0,0,0,0,10,.001', '--load=50', '--rlc-load=1,1e-6,', '--attach-load=2,1', '--attach-load=1,2',
      '--theta=0,10,2', '--phi=0,90,1'],
+    ['-w', '8,0,0,0,0,0,10,.001', '--excitation-pulse=1', '--medium=13,0.005,0,10', '--medium=5,0.001,-1,50',
+     '--theta=0,10,2', '--phi=0,90,1'],
+    ['-w', '10,0,0,0,0,0,10,.001', '--rlc-load=50,0,1e-10', '--attach-load=1,2', '--rlc-load=0,3e-6,0', '--attach-load=2,4',
+     '--theta=0,10,2', '--phi=0,90,1'],
     ['-w', '3,0,0,0,0,0,3,.001', '--excitation-pulse=1', '--load=5', '--attach-load=1,1', '--attach-load=1,1',
      '--theta=0,10,2', '--phi=0,90,1'],
     ['-w', '4,0,0,0,0,0,5,.001', '-w', '4,0,0,5,0,3,5,.001', '--excitation-pulse=2', '--skin-effect-conductivity=5e7,1',
